@@ -162,14 +162,20 @@ def apply_impl(lod, st):
         return lod.fill_missing_keys(**dict(map(tuple, st["kvs"])))
     if m == "fill_all":
         return lod.fill_missing_keys()
+    # the same call in the spellings a caller may use (a function of the step, so a replay does the same): arguments
+    # by position or by keyword; any iterable of dicts — list, tuple, generator, iterator, map — where a list works
+    import zlib
+    spell = zlib.crc32(repr(sorted(st.items(), key=str)).encode()) % 6
     if m == "append":
-        return lod.append(dict(st["item"]))
+        return lod.append(dict(st["item"])) if spell % 2 == 0 else lod.append(item=dict(st["item"]))
     if m == "extend":
-        return lod.extend([dict(d) for d in st["items"]])
+        items = [dict(d) for d in st["items"]]
+        arg = [items, tuple(items), (d for d in items), iter(items), map(dict, items), di.ListOfDicts(items)][spell]
+        return lod.extend(arg)
     if m == "add":
         return lod + di.ListOfDicts([dict(d) for d in st["items"]])
     if m == "insert":
-        return lod.insert(st["index"], dict(st["item"]))
+        return lod.insert(st["index"], dict(st["item"])) if spell % 2 == 0 else lod.insert(index=st["index"], item=dict(st["item"]))
     if m == "mul":
         return lod * st["n"]
     if m == "reverse":
